@@ -67,6 +67,14 @@ access(all) fun consumeIR(_ r: @R): Int { destroy r; return 1 }
 access(all) fun consumeIO(_ r: @R?): Int { destroy r; return 1 }
 access(all) fun consumeIA(_ r: @[R]): Int { destroy r; return 1 }
 access(all) fun optInt(): Int? { return nil }
+access(all) struct T {
+  access(all) fun note(_ n: Int) {}
+  access(all) fun notes(_ ns: [Int]) {}
+  access(all) fun takeR(_ r: @R) { destroy r }
+  access(all) fun takeO(_ r: @R?) { destroy r }
+  access(all) fun takeA(_ r: @[R]) { destroy r }
+}
+access(all) fun optT(): T? { return nil }
 access(all) fun refR(_ r: &R) {}
 access(all) fun refO(_ r: &R?) {}
 access(all) fun refA(_ r: &[R]) {}
@@ -154,6 +162,15 @@ func (r *linRenderer) block(ss []LStmt, ind string) {
 				r.line(ind, "let n%d = optInt() ?? consumeI%s(<-%s)", r.n, kindSuffix(s.K), s.X)
 			case "cond":
 				r.line(ind, "let n%d = cond() ? consumeI%s(<-%s) : 0", r.n, kindSuffix(s.K), s.X)
+			// optional chaining: when the receiver is nil neither the call nor its arguments are evaluated
+			case "optmove":
+				r.line(ind, "optT()?.take%s(<-%s)", kindSuffix(s.K), s.X)
+			case "optcall":
+				r.line(ind, "optT()?.note(consumeI%s(<-%s))", kindSuffix(s.K), s.X)
+			case "optarr":
+				r.line(ind, "optT()?.notes([consumeI%s(<-%s)])", kindSuffix(s.K), s.X)
+			case "optcond":
+				r.line(ind, "optT()?.note(cond() ? consumeI%s(<-%s) : 0)", kindSuffix(s.K), s.X)
 			default:
 				r.line(ind, "let b%d = cond() && consumeB%s(<-%s)", r.n, kindSuffix(s.K), s.X)
 			}
